@@ -51,7 +51,14 @@ def _shared():
     # extensions, remaining payload range and length source, error values): body in c03::glue, owned by C07's registry
     try:
         from reg import c07
-        return [h for h in c07.HDR if not h["name"].endswith("_lax")]
+        out = []
+        for h in c07.HDR:
+            if not h["name"].endswith("_lax"):
+                h = dict(h)
+                if h["name"] == "c07_hdr_macsec_vlan":
+                    h["tier"] = "quick"  # C04's quick tier has room for it (C07's is at the time limit)
+                out.append(h)
+        return out
     except Exception:
         return []
 
